@@ -26,10 +26,11 @@ const (
 	cfgBodyLimit
 	cfgReadBuf
 	cfgErrSink
+	cfgBodyNeg
 	nCfg
 )
 
-var cfgNames = [nCfg]string{"default", "customctx", "methods", "immutable", "unescape", "bodylimit1k", "readbuf512", "errhandler-accessors"}
+var cfgNames = [nCfg]string{"default", "customctx", "methods", "immutable", "unescape", "bodylimit1k", "readbuf512", "errhandler-accessors", "bodylimit-neg1"}
 
 type appOpts struct {
 	kind         int
@@ -85,6 +86,8 @@ func buildSinkApp(o appOpts) *fiber.App {
 		cfg.BodyLimit = 1024
 	case cfgReadBuf:
 		cfg.ReadBufferSize = 512
+	case cfgBodyNeg:
+		cfg.BodyLimit = -1
 	}
 	if o.trustProxy {
 		cfg.TrustProxy = true
@@ -470,7 +473,13 @@ func judgeStream(e *ev.Env, c *ev.Case, cfg string, input, out []byte) ([]*stric
 			off0 += len(r.Raw)
 		}
 		sig := "wellformed|" + perr.Class + "|" + site
-		if cls := flashCookieBytes(out[off0:]); cls != "" && (strings.HasPrefix(site, "set-cookie:") || site == "injected-header-line" || site == "?") {
+		// look at the failing block and at the response before it: a cookie value with an empty
+		// line in it ends that response early for the parser, which then fails on the rest
+		scan := off0
+		if len(rs) > 0 {
+			scan -= len(rs[len(rs)-1].Raw)
+		}
+		if cls := flashCookieBytes(out[scan:]); cls != "" && (strings.HasPrefix(site, "set-cookie:") || site == "injected-header-line" || site == "?") {
 			// the flash cookie is raw MessagePack: name the worst byte class it carries rather
 			// than the first one met (old-input entries come in map order)
 			sig = "wellformed|flash-cookie-raw-bytes|" + cls
@@ -522,6 +531,9 @@ func finals(rs []*strict.Response) []*strict.Response {
 	return f
 }
 
+// svSeen counts what the oracles actually got to see (one engine run per process).
+var svSeen struct{ handler, class int }
+
 func runSurvive(e *ev.Env) {
 	setup(e)
 	defer stopProfile()
@@ -549,6 +561,7 @@ func runSurvive(e *ev.Env) {
 	// an error handler that calls c.Method() (say, to log) on a request with an unknown method
 	// that fasthttp itself rejects (body over the limit): index out of range [-1] in App.method
 	one("errhandler-method-unknown-method-body-too-large", appOpts{kind: cfgErrSink}, []byte("BREW /ks HTTP/1.1\r\nHost: x\r\nContent-Length: 99999999\r\n\r\n"), 0)
+	one("head-body-too-large", appOpts{}, []byte("HEAD /ks HTTP/1.1\r\nHost: x\r\nContent-Length: 99999999\r\n\r\n"), 0)
 	flashReq := func(v []byte) []byte {
 		return append(append([]byte("GET /ks?rid=c5 HTTP/1.1\r\nHost: x\r\nCookie: fiber_flash="), v...), "\r\n\r\n"...)
 	}
@@ -594,6 +607,15 @@ func runSurvive(e *ev.Env) {
 		surviveCase(e, c, o, reqs, raw, mutated, ops)
 	})
 
+	if e.Only == "" {
+		if svSeen.handler == 0 {
+			e.Inconclusive("no generated request reached the kitchen-sink handler in this shard")
+		}
+		if svSeen.class == 0 {
+			e.Inconclusive("no status-class request was judged in this shard")
+		}
+	}
+
 	// -------- expected-fatal inputs, each in its own child process -------------------------
 	// (last, so that a replay of one of them is the only thing that dies)
 	e.Corpus("fatal-flash-array32-max", func(c *ev.Case) {
@@ -624,7 +646,7 @@ func surviveOne(e *ev.Env, c *ev.Case, o appOpts, raw []byte, wantStatus int) {
 func surviveCase(e *ev.Env, c *ev.Case, o appOpts, reqs []*rq, raw []byte, mutated bool, ops []string) {
 	cfg := cfgNames[o.kind]
 	mk := func() *fiber.App { return buildSinkApp(o) }
-	e.Journal(cfg + " " + hexOf(raw))
+	journalInput(e, cfg, raw)
 	if c.ID[:6] != "corpus" && fatalCandidate(raw) {
 		// a flash cookie with an array32 header: announces >= 2^29 elements whenever it passes
 		// fasthttp's header check. Run it in a child so that this shard survives.
@@ -676,11 +698,14 @@ func surviveCase(e *ev.Env, c *ev.Case, o appOpts, reqs []*rq, raw []byte, mutat
 		e.Nontrivial(cfg, itoa(r.Status), oc)
 		if oc != "" {
 			e.Stat("handler_ran", 1)
+			svSeen.handler++
+			e.Sample("reached-handler", map[string]any{"config": cfg, "status": r.Status, "outcome": oc, "input": show(raw[:min(len(raw), 300)])})
 			if strings.Contains(oc, "!RANGE-OUTSIDE-RESOURCE!") {
 				e.Violation(c, "accessor|Range|range-outside-0..size-1", "Range(size) returned a range with start > end or outside the resource", detail)
 			}
 		} else {
 			e.Stat("status_"+itoa(r.Status), 1)
+			e.Sample("error-answer", map[string]any{"config": cfg, "status": r.Status, "body": show(r.Body[:min(len(r.Body), 120)]), "input": show(raw[:min(len(raw), 200)])})
 		}
 	}
 	e.Stat("responses", int64(len(fin)))
@@ -714,6 +739,7 @@ func surviveCase(e *ev.Env, c *ev.Case, o appOpts, reqs []*rq, raw []byte, mutat
 		// (5) status classes
 		if q.Class != "" && q.Expect != 0 {
 			e.Stat("class_"+q.Class, 1)
+			svSeen.class++
 			if r.Status != q.Expect {
 				e.Violation(c, "status|"+q.Class+"|got-"+itoa(r.Status), "request of class "+q.Class+" must be answered "+itoa(q.Expect)+", got "+itoa(r.Status),
 					map[string]any{"config": cfg, "input": show(raw), "input_hex": hexOf(raw), "index": i, "body": show(r.Body)})
